@@ -23,8 +23,8 @@ def render(rec):
         defs = [n for n in NAMES if ds[i][n]]
         out = []
         kind = "module" if i == 0 else ks[i - 1]
-        if i >= 1 and rec["gs"][i - 1]:
-            out.append("(global x)")
+        if i >= 1 and rec["gs"][i - 1] != "none":
+            out.append(f"({rec['gs'][i - 1]} x)")
         if kind != "let":
             out += [f"(setv {n} {INIT[n] + i})" for n in defs]
         if i < D:
@@ -92,9 +92,8 @@ def shape_key(rec):
 
 
 def finding_family(rec):
-    """structural family of a known defect: a nonlocal that has to reach a let binding living in a class body"""
-    if rec["decl"] != "nonlocal":
-        return ""
+    """structural family of a known defect: a nonlocal (innermost or intermediate) that has to reach a
+    let binding living in a class body"""
     ks = rec["ks"]
     D = len(ks)
 
@@ -102,15 +101,16 @@ def finding_family(rec):
         while i > 0 and ks[i - 1] == "let":
             i -= 1
         return i
-    P = pyscope(D)
-    fam = set()
-    for n in NAMES:
-        t = rec["target"][n]
-        if not (rec["dn"][n] and 0 < t <= D and ks[t - 1] == "let" and pyscope(t) != P):
-            continue
-        if pyscope(t) > 0 and ks[pyscope(t) - 1] == "class":
-            fam.add("nonlocal reaching a let binding that lives in a class body")
-    return sorted(fam)[0] if fam else ""
+    # (declaring level, target level) of every nonlocal declaration in the program
+    pairs = []
+    if rec["decl"] == "nonlocal":
+        pairs += [(D, rec["target"][n]) for n in NAMES if rec["dn"][n]]
+    pairs += [(i, t) for i, t in enumerate(rec["res"], 1) if rec["gs"][i - 1] == "nonlocal"]
+    for lvl, t in pairs:
+        if 0 < t <= D and ks[t - 1] == "let" and pyscope(t) != pyscope(lvl) and pyscope(t) > 0 \
+                and ks[pyscope(t) - 1] == "class":
+            return "nonlocal reaching a let binding that lives in a class body"
+    return ""
 
 
 def _one(rec):
@@ -121,7 +121,7 @@ def main(run):
     rng = random.Random(run.seed)
     q = run.quick
     md = 3 if q else 4
-    r = tlc.run("HyScope", tlc.cfg(constants={"MaxDepth": md},
+    r = tlc.run("HyScope", tlc.cfg(constants={"MaxDepth": md, "MaxMid": 1 if q else 2},
                                    invariants=["GlobalIsModule", "NonlocalSkipsClasses", "OneBindingChanges", "Nearest", "Export"]),
                 run.work, workers=16, label="scope", timeout=3000)
     if r.violated:
@@ -135,8 +135,8 @@ def main(run):
         short = [x for x in rows if len(x["ks"]) <= 2]
         rest = [x for x in rows if len(x["ks"]) > 2]
         # programs with a declaration are the interesting ones
-        decl = [x for x in rest if x["decl"] != "none" or any(x["gs"])]
-        other = [x for x in rest if x["decl"] == "none" and not any(x["gs"])]
+        decl = [x for x in rest if x["decl"] != "none" or any(g != "none" for g in x["gs"])]
+        other = [x for x in rest if x["decl"] == "none" and not any(g != "none" for g in x["gs"])]
         rng.shuffle(decl)
         rng.shuffle(other)
         rows = short + decl[:int((cap - len(short)) * 0.85)] + other[:int((cap - len(short)) * 0.15)]
